@@ -7,7 +7,7 @@ from ..engine import AnalysisError, show, strip, short, walk, last_seg, tree_cal
 
 PROP = "C05"
 LEVEL = "other"
-QUICK = ["K0", "K1"]
+QUICK = ["K0", "K1", "K3"]  # K3 (marksweep_as_nonmoving) carries the listed known finding
 THOROUGH = ALL_CONFIGS
 ASSUMPTIONS = ["the VM binding calls the write barrier / region-copy barrier on every reference store into the heap",
                "nursery sizing and object age arithmetic are not decided"]
